@@ -92,14 +92,26 @@ class _G1:
             if not (INPUT in allo and THIS in allo):
                 continue
             mixing += 1
-            g = ctx.relating_guard_at(node, INPUT, THIS)
+            big = None
+            if INPUT in bobjs and THIS not in bobjs and THIS in iobjs and INPUT not in iobjs:
+                big = INPUT           # x[k] with k bounded by the plan's length: the input must be at least that long
+            elif THIS in bobjs and INPUT not in bobjs and INPUT in iobjs and THIS not in iobjs:
+                big = THIS            # table[k] with k bounded by the input's length
+            else:
+                big = "both"
+            g = ctx.relating_guard_at(node, INPUT, THIS, big=big)
             if g is not None:
                 guards.append(g.cond.text())
                 continue
             d = preceded_by_guarded_delegation(node)
             if d is not None:
                 continue
-            own.append((node.line, node.text(), "element access mixes the caller's input with plan state (%s) and no live "
+            wd = getattr(ctx, "last_wrong_direction", None)
+            ctx.last_wrong_direction = None
+            own.append((node.line, node.text(), ("element access mixes the caller's input with plan state (%s) and the only live length "
+                        "check relating them, %s, bounds the wrong side" % (", ".join(sorted("/".join(o) for o in allo)), wd.cond.text()))
+                        if wd is not None else
+                        "element access mixes the caller's input with plan state (%s) and no live "
                         "length check relating them dominates it" % ", ".join(sorted("/".join(o) for o in allo))))
         # pass 3: calls that hand input pointers and plan state to a kernel
         for n in f.walk():
@@ -129,7 +141,7 @@ class _G1:
             if not (INPUT in objs and THIS in objs):
                 continue
             mixing += 1
-            g = ctx.relating_guard_at(n, INPUT, THIS)
+            g = ctx.relating_guard_at(n, INPUT, THIS, big="both")
             if g is not None:
                 guards.append(g.cond.text())
                 continue
@@ -319,17 +331,23 @@ def rule_G2(prog, fixture=False, only_compound=False):
             for fo in sorted(foreign):
                 g = None
                 for b in bobjs:
-                    g = ctx.relating_guard_at(node, b, fo, need_throw=need_throw_here)
+                    g = ctx.relating_guard_at(node, b, fo, need_throw=need_throw_here, big=b)
                     if g is not None:
                         break
                 if g is None:
                     missing.append(fo)
                 else:
                     found.append(g)
+            wd = getattr(ctx, "last_wrong_direction", None) if missing else None
+            ctx.last_wrong_direction = None
             sites.append((node, "foreign-bound", not missing,
                           ("guard %s" % found[0].cond.text()) if not missing else
-                          "index bound comes from %s but no live guard relates its size to %s" % (
-                              ", ".join("/".join(o) for o in missing), ", ".join("/".join(o) for o in sorted(bobjs))),
+                          ("index bound comes from %s and the only live check relating the sizes, %s%s, bounds the wrong side: it "
+                           "admits an indexed operand %s that is shorter" % (", ".join("/".join(o) for o in missing), "" if wd.pol else "!",
+                                                                            "(" + wd.cond.text() + ")", ", ".join("/".join(o) for o in sorted(bobjs)))
+                           if wd is not None else
+                           "index bound comes from %s but no live guard relates its size to %s" % (
+                               ", ".join("/".join(o) for o in missing), ", ".join("/".join(o) for o in sorted(bobjs)))),
                           bobjs, foreign))
         # running pointers: `const T2* src = rhs.data(); for (T& dst : _vec) { dst += *src; ++src; }` - how far the pointer is
         # read is decided by the loop that advances it, i.e. by whatever bounds that loop
@@ -383,7 +401,7 @@ def rule_G2(prog, fixture=False, only_compound=False):
             for fo in sorted(foreign):
                 g = None
                 for b in bobjs:
-                    g = ctx.relating_guard_at(node, b, fo, need_throw=need_throw_here)
+                    g = ctx.relating_guard_at(node, b, fo, need_throw=need_throw_here, big=b)
                     if g is not None:
                         break
                 (found if g is not None else missing).append(g if g is not None else fo)
